@@ -30,6 +30,8 @@ type Model struct {
 	Orphaned map[string]bool
 	Touched  map[string]world.Path // list entries some intent ever touched
 	R0       map[string]*world.Leaf
+	// PrevWinners: choice winners before the transaction being judged (set by Hist.Step; diagnostics for C08 items)
+	PrevWinners map[string]string
 }
 
 func NewModel(si *world.SchemaInfo) *Model {
@@ -275,4 +277,27 @@ func (m *Model) everBelow(p world.Path) bool {
 		}
 	}
 	return false
+}
+
+// Takeover: the winning case of the choice instance changed to a case to which no intent of the transaction contributes.
+func (m *Model) Takeover(key string, winners map[string]string, tx *TxSpec) bool {
+	wn := winners[key]
+	if wn == "" || m.PrevWinners == nil || m.PrevWinners[key] == wn {
+		return false
+	}
+	for _, is := range tx.Intents {
+		it := m.Live[is.Name]
+		if it == nil {
+			continue
+		}
+		for _, l := range it.Leaves {
+			for i := range l.Path {
+				node := m.SI.Node(l.Path[:i+1])
+				if node != nil && node.Choice != "" && l.Path[:i].String()+"|"+node.Choice == key && node.Case == wn {
+					return false
+				}
+			}
+		}
+	}
+	return true
 }
